@@ -183,8 +183,15 @@ func Generate(r *rand.Rand, o Opts) *Project {
 	// cross-package calls: file 0 of each package calls one stable function of each import
 	for _, pk := range p.Pkgs {
 		f0 := pk.Files[0]
+		blank := map[int]bool{}
 		for _, j := range pk.Imports {
 			lib := p.Pkgs[j]
+			// one import in six is for side effects only (`_ "path"`): still an edge of the closure
+			if r.Intn(6) == 0 {
+				blank[j] = true
+				f0.Blank = append(f0.Blank, pkgImportPath(lib.Dir))
+				continue
+			}
 			f0.Imports = append(f0.Imports, pkgImportPath(lib.Dir))
 			for _, fn := range lib.Files[0].Funcs {
 				if fn.Status != gen.Added && (fn.Kind == "multi" || fn.Kind == "single") {
@@ -195,6 +202,9 @@ func Generate(r *rand.Rand, o Opts) *Project {
 		}
 		// an import must be used: fall back to a helper every package has
 		for k, j := range pk.Imports {
+			if blank[j] {
+				continue
+			}
 			lib := p.Pkgs[j]
 			used := false
 			for _, c := range f0.Calls {
@@ -531,4 +541,46 @@ func ReadTree(dir string) map[string]string {
 		return nil
 	})
 	return out
+}
+
+// Leftovers lists what a tree holds beyond the given file set: files (any kind) that are not
+// keys of want, and directories that no wanted file lives in (e.g. an emptied package directory).
+// .git is skipped; allow names extra files that may exist (goat.yaml); the proper ancestors of
+// pkgPath (created by MkdirAll for a nested tracking package path such as tools/goat) are not
+// reported: the properties name the tracking package directory itself as the artefact.
+func Leftovers(dir string, want map[string]string, pkgPath string, allow ...string) (files, dirs []string) {
+	ok := map[string]bool{}
+	okDir := map[string]bool{".": true}
+	for d := filepath.Dir(filepath.Clean(pkgPath)); d != "." && d != "/"; d = filepath.Dir(d) {
+		okDir[d] = true
+	}
+	for p := range want {
+		ok[p] = true
+		for d := filepath.Dir(p); d != "." && d != "/" && !okDir[d]; d = filepath.Dir(d) {
+			okDir[d] = true
+		}
+	}
+	for _, a := range allow {
+		ok[a] = true
+	}
+	filepath.Walk(dir, func(path string, info os.FileInfo, err error) error {
+		if err != nil {
+			return nil
+		}
+		rel, _ := filepath.Rel(dir, path)
+		if info.IsDir() {
+			if rel == ".git" {
+				return filepath.SkipDir
+			}
+			if !okDir[rel] {
+				dirs = append(dirs, rel)
+			}
+			return nil
+		}
+		if !ok[rel] {
+			files = append(files, rel)
+		}
+		return nil
+	})
+	return files, dirs
 }
